@@ -1,6 +1,6 @@
 """C06 - RawLRU keeps exact recency order; eviction and resize take the true LRU."""
 from .lib import api, ntrun, composite
-from .lib.routing import View, cond_facts, norm_cmp, SELF
+from .lib.routing import View, cond_facts, norm_cmp, outer_enters, SELF
 from .lib.absint import fmt_val, subterms
 from .lib.effects import mutation_events
 from .lib.nt import end_load
@@ -159,14 +159,14 @@ def resize(cx, chk, cfg, F):
         ok = False
         chk.violation("C06.R3", "resize|" + what, "resize: " + msg, f["span"]["file"], ln or f["span"]["lo"], f["q"], None, cfg)
     for f_, p, w in ntrun.walk(cx, cfg, only=lambda g: g["path"] == f["path"]):
-        facts = [(c, t, e) for c, t, e in cond_facts(p) if e["depth"] == 0]
+        facts = cond_facts(p)      # at any depth: the loop may sit in a helper; only comparisons with the new capacity are looked at
         same = None
         for c, t, e in facts:
             if isinstance(c, tuple) and c[0] == "bin" and c[1] in ("Eq", "Ne") and {c[2], c[3]} == {ARG, CAP}:
                 same = (c[1] == "Eq") == t
         stores = [e for e in p.events if e["ev"] == "store" and e["loc"] == ("H", SELF, ("cap",))]
-        removes = [e for e in p.events if e["ev"] == "enter" and e["depth"] == 0 and e["q"].endswith("::remove_lru")]
         deps = [d for d in w.departures]
+        removes = outer_enters(p, lambda e: e["q"].split("::")[-1].startswith("remove_lru"))
         if same is None:
             bad("no-same-cap-test", "a path does not compare the new capacity with self.cap")
             continue
@@ -180,12 +180,10 @@ def resize(cx, chk, cfg, F):
             r = norm_cmp(c, t, lambda x: isinstance(x, tuple) and x[0] == "len" and x[1] == ("H", SELF, ("map",)))
             if r and r[2] == ARG:
                 loops.append(r[0])
-        k = len(removes)
+        k = len(deps)
         kinds.add("iter%d" % k)
         if loops != ["Gt"] * k + ["Le"]:
             bad("loop-condition", "the eviction loop is not `while map.len() > cap` (condition facts on a path with %d evictions: %s)" % (k, loops), removes[0].get("ln") if removes else None)
-        if len(deps) != k:
-            bad("departures", "%d entries leave on a path with %d loop iterations" % (len(deps), k))
         if len(stores) != 1 or stores[0]["val"] != ARG:
             bad("cap-store", "self.cap is not set to the new capacity exactly once (%s)" % [fmt_val(s["val"]) for s in stores])
         if p.ret != ("const", "u64", str(k)):
